@@ -188,12 +188,13 @@ def _status_table_case(cls_name):
     def build(cx):
         from wntr.network import LinkStatus
         from wntr.network import elements as EL
-        cls = getattr(EL, cls_name)
+        cls = getattr(EL, cls_name.split(",")[0])
         S = LinkStatus
         table = []
+        extra = dict(_check_valve=cls_name.endswith("check_valve")) if cls is EL.Pipe else {}       # (a real Pipe always carries the flag)
         for u in (S.Closed, S.Open, S.Active):
             for i in (S.Closed, S.Open, S.Active):
-                link = cx.obj(cls, _link_name="L", _user_status=u, _internal_status=i)
+                link = cx.obj(cls, _link_name="L", _user_status=u, _internal_status=i, **extra)
                 table.append((u, i, link))
         cx.target(_all_statuses, [t[2] for t in table])
 
@@ -218,7 +219,7 @@ def _all_statuses(links):
 
 
 CONTRACTS.append(Contract("wntr.network.elements:Pipe/Pump/Valve.status", ["C02", "C05", "C09"],
-                          [_status_table_case(c) for c in ("Pipe", "HeadPump", "PowerPump", "PRValve", "PSValve", "FCValve", "TCValve")],
+                          [_status_table_case(c) for c in ("Pipe", "Pipe,with_a_check_valve", "HeadPump", "PowerPump", "PRValve", "PSValve", "FCValve", "TCValve")],
                           interpret_always=(_all_statuses,), note="the full 3 x 3 table of (user status, internal status) for every link class the simulator supports"))
 
 
